@@ -165,6 +165,12 @@ def gen_inplace(rng, idx):
         b.net.desc.append("cpu:" + kind)
         return o
 
+    if rng.random() < 0.15 and variant in ("cpu_reader", "cpu_produced"):
+        # the elementwise operator reads the tensor through a RESHAPE (kept as a copy because its input has other readers)
+        st_ = b.t(src).shape
+        e = elementwise(b.reshape(src, [1, st_[2], st_[1], st_[3]]))
+        b.net.desc.append("through_reshape")
+        return b.finish([src, e] if src != x else [e, cpu_minmax(src, b.reshape(e, list(st_)))])
     e = elementwise(src)
     z = cpu_minmax(*((src, e) if rng.random() < 0.5 else (e, src)))
     outs = [z] if rng.random() < 0.6 else [e, z]
@@ -602,6 +608,14 @@ def corpus_net(rng, name):
             y = b.pool(x, "AVERAGE_POOL_2D", (2, 2), (1, 4), "VALID")
             z = b.reshape(y, [1, 84])
         return b.finish([z])
+    if name == "known_protected_reshape_inplace":
+        b = make_builder(rng, name, "int8")
+        x = b.input([1, 8, 12, 17], scale=0.05, zp=3)
+        y = b.conv(x, 4, (1, 1), (4, 4), (1, 1), "SAME", act=0)       # stays on the CPU
+        r = b.reshape(y, [1, 3, 2, 4])
+        z = b.fm([1, 3, 2, 4], "int8", scale=0.04, zp=-10)
+        b.net.ops.append(netgen.Op("ABS", [r], [z], ("AbsOptions", {})))
+        return b.finish([y, z])
     if name == "known_transpose_lut_mul":
         b = make_builder(rng, name, "int8")
         x = b.input([1, 5, 5, 16], scale=0.089, zp=-101)
@@ -782,7 +796,7 @@ def _worker(job):
             opts = gen_opts(rng, profile)
         data = netgen.serialize(net)
         out.update(desc=net.describe(), opts=opts, src_ops=[o.kind for o in net.ops], dtype=net.tensors[net.inputs[0]].dtype,
-                   src_inputs=list(net.inputs),
+                   src_inputs=list(net.inputs), src_outputs=list(net.outputs),
                    src_dil=[max(int((o.opts[1] if o.opts else {}).get("DilationWFactor", 1)), int((o.opts[1] if o.opts else {}).get("DilationHFactor", 1)))
                             for o in net.ops],
                    src_tinfo=[(list(t.shape), t.dtype, [float(x) for x in (t.scales or [])], [int(z) for z in (t.zps or [])],
@@ -919,6 +933,26 @@ def transpose_then_activation(o):
                for kind, ins, outs, faf, pad, stride in g)
 
 
+ELEMENTWISE_KINDS = ("ADD", "SUB", "MUL", "MINIMUM", "MAXIMUM", "ABS", "LEAKY_RELU", "PRELU", "HARD_SWISH", "TANH", "LOGISTIC", "EXP",
+                     "SQUARED_DIFFERENCE")
+
+
+def protected_tensor_reshaped_into_elementwise(o):
+    """a tensor that has to survive (network output, or read by more than one operator) is read through a RESHAPE-like operator
+    by an elementwise operator"""
+    g = o.get("src_graph") or []
+    outs_net = set(o.get("src_outputs") or [])
+    consumers = {}
+    for kind, ins, outs, faf, pad, stride in g:
+        for t in ins:
+            consumers.setdefault(t, []).append(kind)
+    for kind, ins, outs, faf, pad, stride in g:
+        if kind in MEMORY_ONLY and (ins[0] in outs_net or len(consumers.get(ins[0], [])) > 1):
+            if any(c in ELEMENTWISE_KINDS for c in consumers.get(outs[0], [])):
+                return True
+    return False
+
+
 def wide_stride_avgpool(o):
     """AVERAGE_POOL_2D with a stride above 3 on more than one channel"""
     ti = o.get("src_tinfo") or []
@@ -933,6 +967,8 @@ def classify_failure(o, ans):
         return "wide-stride-avgpool-converted-with-one-input-channel-kernel"
     if ans.endswith("verdict=fail") and mean_over_unit_axes(o):
         return "mean-over-unit-axes-drops-requantisation"
+    if ans.endswith("verdict=fail") and protected_tensor_reshaped_into_elementwise(o):
+        return "write-protected-tensor-shares-memory-with-reshape-copy"
     if ans.endswith("verdict=fail") and transpose_then_activation(o):
         return "transpose-then-packed-activation-loses-transposition"
     if ans.endswith("verdict=fail") or ans.startswith("err:out:"):
@@ -981,7 +1017,7 @@ def main():
                                                               "mean_unit_axes", "concat_batch_axis",
                                                               "resize_reshape", "mean_reshape", "widepool_reshape",
                                                               "transpose_relu", "sqdiff_reshape", "dilation3_uint8", "shared_dilation3", "shared_tconv",
-                                                              "prelu_reshape", "transpose_lut_mul")]
+                                                              "prelu_reshape", "transpose_lut_mul", "protected_reshape_inplace")]
     jobs += [(ck.seed, i, PROFILES[i % len(PROFILES)], k_inputs) for i in range(n)]
     ctx = multiprocessing.get_context("fork")
     with ProcessPoolExecutor(min(16, os.cpu_count() or 4), mp_context=ctx) as ex:
